@@ -5,11 +5,11 @@ EXTENDS Looping, TLC, Json
 CONSTANTS Depth, MaxD
 VARIABLE hist
 SInit == /\ \E iv \in 1..4, nf \in BOOLEAN, w \in BOOLEAN, s \in {0, 1, 3} :
-              InitWith([iv |-> iv, nowFlag |-> nf, wc |-> w, t0 |-> s])
+              InitWith([iv |-> iv, nowFlag |-> nf, wc |-> w, t0 |-> s, strict |-> TRUE])
          /\ hist = <<>>
 Next == \/ \E bh \in Behs : StartNow(bh)
         \/ StartLater
-        \/ \E d \in 1..MaxD, bh \in Behs : AdvanceCall(d, bh)
+        \/ \E d \in 1..MaxD, bh \in Behs : AdvanceCall(d, bh, 0)
         \/ \E d \in 1..MaxD : AdvanceQuiet(d)
         \/ FireOk \/ FireFail
         \/ StopScheduled \/ StopInCall
